@@ -172,6 +172,14 @@ def run_case(rep, scn, case, sb, tag, rows):
         ok = res.results.get(o.repo["url"]) is True
         if ok:
             o.snapshot_new()
+            # "the complete new one": what went live must contain every selected index the new Release lists
+            # and every pool file they name (independent fsck), not merely be what the run happened to stage
+            r2 = next(r for r in scn2.repos if r["url"] == o.repo["url"])
+            probs = P.fsck(P.Scenario([r2]), base)
+            if probs:
+                found = True
+                rep.violation(f"{o.repo['url']}: the tree that went live is not the complete new tree: {probs[:2]}",
+                              {"kind": "oracle", "tie": "snapshots", "case": jc}, tags={"oracle": "complete_new"})
         idx, msg, counts = judge(o, snaps, ok)
         rep.case(("c03", ok, counts["old"] > 0, counts["new"] > 0, counts["gap"] > 0, len(snaps) // 50, case["faults"]),
                  sample={"repo": o.repo["url"], "result": ok, "snapshots": len(snaps), "states": counts})
